@@ -72,6 +72,9 @@ func Gen(r *rand.Rand, o GenOpts, id string) *Program {
 			if r.Float64() < o.PIgnTask {
 				t.Ign = true
 			}
+			if r.Float64() < 0.15 {
+				t.Label = true
+			}
 			if len(o.Guards) > 0 && r.Float64() < o.PGuard {
 				t.Guard = pick(r, o.Guards)
 				if t.Guard == "internal" && i != 0 {
@@ -396,7 +399,7 @@ func Core() []*Program {
 		"b": {Cmds: []Cmd{sh(0)}},
 	}))
 	// guards in every position
-	for _, g := range []string{"platform", "platreq", "requires", "enum", "precond", "prompt", "uptodate"} {
+	for _, g := range []string{"platform", "platreq", "requires", "requires2", "enum", "precond", "prompt", "uptodate"} {
 		add(mk("guard-root-"+g, 0, []string{"a", "b"}, map[string]*Task{
 			"a": {Guard: g, Deps: []CallSite{dep("b")}, Cmds: []Cmd{sh(0)}},
 			"b": {Cmds: []Cmd{sh(0)}},
@@ -421,6 +424,10 @@ func Core() []*Program {
 	pf := mk("guard-precond-force", 0, []string{"a"}, map[string]*Task{"a": {Guard: "precond", Cmds: []Cmd{sh(0)}}})
 	pf.Force = true
 	add(pf)
+	pfa := mk("guard-precond-dep-forceall", 0, []string{"a", "b"}, map[string]*Task{
+		"a": {Deps: []CallSite{dep("b")}, Cmds: []Cmd{sh(0)}}, "b": {Guard: "precond", Cmds: []Cmd{sh(0)}}})
+	pfa.ForceAll = true
+	add(pfa)
 	py := mk("guard-prompt-yes", 0, []string{"a"}, map[string]*Task{"a": {Guard: "prompt", Cmds: []Cmd{sh(0)}}})
 	py.Yes = true
 	add(py)
@@ -477,6 +484,26 @@ func Core() []*Program {
 		"a": {Deps: []CallSite{dep("b")}, Cmds: []Cmd{sh(0)}}, "b": {Cmds: []Cmd{call("a", "")}}}))
 	add(mk("cycle-once", 0, []string{"a", "b"}, map[string]*Task{
 		"a": {Run: "once", Deps: []CallSite{dep("b")}, Cmds: []Cmd{sh(0)}}, "b": {Deps: []CallSite{dep("a")}, Cmds: []Cmd{sh(0)}}}))
+	// a labelled run: once task called with different variables; a failure ignored at task level next to defers;
+	// a task with ignore_error whose dependency fails; an enum-guarded task called with an empty value
+	add(mk("once-label", 0, []string{"a", "b"}, map[string]*Task{
+		"a": {Cmds: []Cmd{call("b", "one"), call("b", "two"), sh(0)}},
+		"b": {Run: "once", Label: true, Cmds: []Cmd{sh(0)}},
+	}))
+	add(mk("ign-task-defer", 0, []string{"a", "b"}, map[string]*Task{
+		"a": {Ign: true, Cmds: []Cmd{{K: "dsh"}, sh(3), call("b", ""), {K: "dsh"}, sh(0)}},
+		"b": {Cmds: []Cmd{sh(5)}},
+	}))
+	add(mk("ign-task-dep-fail", 0, []string{"a", "b", "c"}, map[string]*Task{
+		"a": {Deps: []CallSite{dep("b")}, Cmds: []Cmd{sh(0)}},
+		"b": {Ign: true, Deps: []CallSite{dep("c")}, Cmds: []Cmd{sh(0)}},
+		"c": {Cmds: []Cmd{sh(3)}},
+	}))
+	add(mk("guard-enum-empty", 0, []string{"a", "b"}, map[string]*Task{
+		"a": {Deps: []CallSite{depv("b", "")}, Cmds: []Cmd{sh(0)}},
+		"b": {Guard: "enum", Cmds: []Cmd{sh(0)}},
+	}))
+	add(mk("guard-enum-empty-root", 0, []string{"a"}, map[string]*Task{"a": {Guard: "enum", Cmds: []Cmd{sh(0)}}}))
 	// two roots, sequential and parallel
 	for _, par := range []bool{false, true} {
 		p := mk(fmt.Sprintf("two-roots-par%v", par), 2, []string{"a", "b", "c"}, map[string]*Task{
